@@ -1500,3 +1500,41 @@ Proof.
   rewrite E. cbn [fst snd]. split; [reflexivity|]. split; [reflexivity|].
   unfold core, with_status. cbn [uf_dir uf_status uf_stdin uf_stdout]. now rewrite Hs.
 Qed.
+(* ---------- the start-up scan over the whole data directory ---------- *)
+
+(* what the scan does with (and answers for) the entry of a name is what it does with that entry
+   alone: nothing else in the directory — no other entry's presence, content or failure, no
+   position in the directory order — enters into it *)
+Theorem scan_independent_thm : forall types d n,
+  dlookup n (scan_dir types d) = option_map (scan_entry types) (dlookup n d).
+Proof.
+  intros types d n. unfold dlookup, scan_dir.
+  induction d as [|[m e] r IH]; [reflexivity|]. simpl.
+  destruct (m =? n); [reflexivity|exact IH].
+Qed.
+
+Theorem scan_other_entries_irrelevant_thm : forall types d1 d2 n,
+  dlookup n d1 = dlookup n d2 ->
+  dlookup n (scan_dir types d1) = dlookup n (scan_dir types d2).
+Proof. intros types d1 d2 n H. now rewrite !scan_independent_thm, H. Qed.
+
+(* entries put in front, behind or in between change nothing for a unit whose name they do not bear *)
+Theorem scan_crowd_irrelevant_thm : forall types before after n x,
+  dlookup n before = None ->
+  dlookup n (scan_dir types (before ++ (n, DUnit x) :: after)) = Some (scan_entry types (DUnit x)).
+Proof.
+  intros types before after n x Hb. rewrite scan_independent_thm.
+  unfold dlookup in *. induction before as [|[m e] r IH]; simpl in *.
+  - now rewrite N.eqb_refl.
+  - destruct (m =? n); [discriminate|]. now apply IH.
+Qed.
+
+(* a scan that stops at the first failing entry loses every unit behind it *)
+Theorem scan_stop_refuted_thm : forall fails types n1 n2 e x,
+  fails e = true -> n1 <> n2 ->
+  dlookup n2 (scan_stop fails types [(n1, e); (n2, DUnit x)]) = None /\
+  dlookup n2 (scan_dir types [(n1, e); (n2, DUnit x)]) = Some (scan_entry types (DUnit x)).
+Proof.
+  intros fails types n1 n2 e x Hf Hne. apply N.eqb_neq in Hne.
+  unfold dlookup. simpl. rewrite Hf. simpl. rewrite Hne, N.eqb_refl. split; reflexivity.
+Qed.
